@@ -150,6 +150,16 @@ def run(ctx):
     for h in (hs[n1 // 2:n1 // 2 + 1] + hs[n1:n1 + 2]):
         ctx.sample({"history": to_lines(h)})
     ctx.exec_validate(exe, hs, to_lines, "LogRouteTrace.tla", trace_cfg(ctx), label="c12", nshards=4 * min(jobs, 4))
+    # (4) threaded targets: with the logging thread started and TWO threaded targets selected by the same call sites, each
+    #     receives every message exactly once, in order (call-level events of free-running executions against LogThreadFree)
+    import random
+    from vlib.checks import c16
+    exe_t = ctx.cc("h_logthread.c", "asan")
+    progs = [p for p in c16.free_programs(random.Random(ctx.seed), 12 if q else 90, set()) if "Second" in p]
+    ctx.sample({"threaded_program": progs[0]})
+    ctx.exec_validate(exe_t, progs, lambda p: p, "LogThreadFreeTrace.tla", os.path.join(core.SPEC, "LogThreadFreeTrace.cfg"),
+                      label="c12-threaded", nshards=4, timeout=900)
+    ctx.cov["threaded_two_target_programs"] = len(progs)
     ctx.cov["histories_exhaustive_depth"] = xd
     ctx.cov["histories_exhaustive"] = n1
     ctx.cov["histories_random_walk"] = len(hs) - n1
@@ -164,5 +174,6 @@ def run(ctx):
         ("steps falling under the recorded findings %s are left out of generated behaviours (LogRoute!KFTrigger); each has a directed reproducer and a model-level reproducer" % ", ".join(KF[n][0] for n in act))
         if act else "no recorded finding reproduces on this tree: nothing is left out of generated behaviours",
         "bounded model: see model_runs constants; histories beyond the exhaustively enumerated depth are sampled, not enumerated",
-        "single-threaded use (no threaded targets); memory errors are observed by ASan/UBSan on the harness",
+        "routing histories are single-threaded (synchronous targets); threaded delivery is exercised separately with two threaded targets "
+        "selected by every call (stage 4, LogThreadFree); memory errors are observed by ASan/UBSan on the harness",
     ]
